@@ -241,6 +241,8 @@ def rule_order(ctx, rep):
             got = it.call(lt, [x, y], {})
         except NonComparisonUse as e:
             got = str(e)
+        except Raised as e:
+            got = 'uses more than the start offsets (%s)' % e.exc.kind
         ok = got is (a < b)
         rep.obligation('R-ORDER', ok, {'a.start ? b.start': '<' if a < b else '=' if a == b else '>', '__lt__': got})
         if not ok:
